@@ -95,8 +95,15 @@ func genC13(r *Rng, e *Emitter, n int) {
 		case 1:
 			np = 51 + r.Intn(150)
 		}
-		shape := r.Intn(4)
+		shape := r.Intn(5)
 		flat := make([]float64, 0, np*stride)
+		// thin cloud: lattice points hugging a long segment (any of eight orientations), so that the two
+		// ends are the only extremes in all eight octagon directions while the points are not collinear
+		tw, th := 1+r.Intn(g), 1+r.Intn(g)
+		if r.chance(1, 2) {
+			th = tw + 1 + r.Intn(g) // steeper than 45 degrees
+		}
+		tsx, tsy := 1-2*r.Intn(2), 1-2*r.Intn(2)
 		// a random line for the collinear shape: horizontal, vertical, diagonal or general direction
 		lx0, ly0, ldx, ldy := r.Intn(5), r.Intn(5), r.Intn(4), r.Intn(4)
 		if ldx == 0 && ldy == 0 {
@@ -107,6 +114,31 @@ func genC13(r *Rng, e *Emitter, n int) {
 			switch shape {
 			case 0: // collinear
 				x, y = lx0+x*ldx, ly0+x*ldy
+			case 4: // thin cloud around the segment (0,th)-(tw,0), reflected
+				switch {
+				case k == 0:
+					x, y = 0, th
+				case k == 1:
+					x, y = tw, 0
+				default:
+					t := r.Intn(1001)
+					x = tw * t / 1000
+					y = th - th*t/1000
+					if r.chance(1, 8) { // a little off the line, towards the inside
+						if r.chance(1, 2) {
+							x++
+						} else {
+							y++
+						}
+						if x > tw {
+							x = tw
+						}
+						if y > th {
+							y = th
+						}
+					}
+				}
+				x, y = tsx*x, tsy*y
 			case 1: // on a circle-ish ring (many hull vertices), plus interior duplicates
 				if k%3 != 0 {
 					x, y = g/2+int(float64(g/2)*cosTab[k%16]), g/2+int(float64(g/2)*sinTab[k%16])
